@@ -67,6 +67,22 @@ def c07(seed, tier):
             s += 'e%d' % rng.choice((-310, -100, -30, -3, 0, 5, 22, 99, 300))
         lits.append(s)
     precs = (1, 5, 24, 53, 64, 113) if tier == 'quick' else (1, 2, 5, 10, 24, 53, 64, 100, 113, 200)
+    # 16/17-digit decimal neighbours of midpoints between adjacent p-bit numbers (double rounding through a
+    # 53-bit float shows only there): midpoint (2k+1)/2**(p+1) scaled, printed with 17 significant digits,
+    # and the two decimal neighbours in the last place
+    from decimal import Decimal, getcontext
+    getcontext().prec = 60
+    for p_ in (5, 24, 30, 40, 52):
+        for _ in range(6 if tier == 'quick' else 40):
+            k = rng.getrandbits(p_ - 1) | (1 << (p_ - 1))
+            for e in (-p_, -p_ + 7, 3):
+                mid = Fraction(2 * k + 1, 2) * Fraction(2) ** e
+                d = Decimal(mid.numerator) / Decimal(mid.denominator)
+                for digits in (16, 17, 18):
+                    q = d.quantize(Decimal(1).scaleb(d.adjusted() - digits + 1))
+                    for delta in (-1, 0, 1):
+                        lits.append(str(q + Decimal(delta).scaleb(q.as_tuple().exponent)))
+    precs = tuple(sorted(set(precs) | {24, 30, 40, 52}))
     n = 0
     fails = []
     samples = []
@@ -209,6 +225,16 @@ def c09(seed, tier):
     for k in (1, 5, 30):
         man = ((1 << 52) + k) * 2 + 1
         xs.append((0, man, -10, man.bit_length()))
+    # 53-bit head, a half-ulp bit, a long run of zeros and a final sticky bit (total length far beyond 128 bits):
+    # the value is just above a tie and must round up whatever the parity of the head
+    for L_ in (70, 76, 100, 130, 200, 500, 2000):
+        for head in ((1 << 52) + 2 * rng.getrandbits(40), (1 << 52) + 2 * rng.getrandbits(40) + 1, (1 << 53) - 2):
+            man = (head << L_) | (1 << (L_ - 1)) | 1
+            for e in (-L_ - 30, 0, 200):
+                for sg in (0, 1):
+                    xs.append((sg, man, e, man.bit_length()))
+            man2 = (head << L_) | ((1 << (L_ - 1)) - 1)            # just below the tie: rounds down
+            xs.append((0, man2, -L_, man2.bit_length()))
     for x in xs:
         n += 1
         q = val(x)
@@ -315,7 +341,11 @@ def c25(seed, tier):
                     fails.append({'fn': 'isprime', 'args': i, 'observed': 'got %s' % mp.isprime(i)})
             if i % 997 == 0:
                 chk('primepi', i, mp.primepi(i), cnt)
-        for i in (1373653, 25326001, 3215031751, 341550071728321, 2047, 3277, 9080191, 4759123141):
+        # psi_k: smallest strong pseudoprimes to the first k prime bases (the switch points of deterministic
+        # Miller-Rabin), other classical pseudoprimes, and Carmichael numbers
+        for i in (2047, 1373653, 25326001, 3215031751, 2152302898747, 3474749660383, 341550071728321,
+                  3277, 9080191, 4759123141, 1122004669633, 4335207541, 561, 41041, 825265, 321197185, 5394826801,
+                  232250619601, 9746347772161, 118901521, 3825123056546413051 if tier != 'quick' else 4759123141):
             n += 1
             if mp.isprime(i):
                 fails.append({'fn': 'isprime', 'args': i, 'observed': 'strong pseudoprime reported prime'})
@@ -407,3 +437,74 @@ def c39(seed, tier):
 
 
 CHECKS = {'C07': c07, 'C08': c08, 'C09': c09, 'C25': c25, 'C39': c39}
+
+
+# ------------------------------------------------------------------------------------------ C29 (polyroots part)
+def c29(seed, tier):
+    """polyroots on real polynomials built from chosen roots: exactly deg roots, every root close to a chosen one,
+    real roots first, complex roots as adjacent conjugate pairs"""
+    from mpmath import mp, mpf, mpc
+    rng = random.Random(seed)
+    n = 0
+    fails = []
+    sets = [
+        [1, 2, 3], [-2, 0.5, 7, 11], [(0, 1)], [(0, 1), (0, 2)], [(1, 1), (1, 3)], [(2, 1), (2, 2), (2, 5)],
+        [3, (0, 1), (0, 2)], [-1, 4, (1, 2), (1, 0.5)], [(1, 1), (3, 1)], [(-2, 3), (5, 3)], [1, (1, 1), (-1, 1), (0, 2)],
+        [(0, 1), (0, 2), (0, 3), (0, 4)], [2, -3, (0.5, 0.25), (0.5, 4)],
+    ]
+    for _ in range(6 if tier == 'quick' else 60):
+        k = rng.randrange(1, 4)
+        re_ = rng.choice((-2, 0, 1, 3))
+        sets.append([x + 0.5 for x in rng.sample(range(-5, 6), rng.randrange(0, 3))]        # distinct simple real roots
+                    + [(re_ if rng.random() < 0.6 else rng.randrange(-4, 5), j + 1 + rng.random()) for j in range(k)])
+    try:
+        for prec in (53, 100):
+            mp.prec = prec
+            for rs in sets:
+                roots = []
+                for r in rs:
+                    if isinstance(r, tuple):
+                        roots += [mpc(r[0], r[1]), mpc(r[0], -r[1])]
+                    else:
+                        roots.append(mpf(r))
+                coeffs = [mpf(1)]
+                for r in roots:                       # multiply by (x - r); conjugate pairs keep the coefficients real
+                    coeffs = [a - r * b for a, b in zip(coeffs + [0], [0] + coeffs)]
+                coeffs = [mp.re(c) for c in coeffs]
+                n += 1
+                try:
+                    got = mp.polyroots(coeffs, maxsteps=200, extraprec=prec + 40)
+                except Exception as e:
+                    fails.append({'fn': 'polyroots', 'roots': str(rs), 'prec': prec, 'observed': 'raised %r' % e, 'class': 'polyroots'})
+                    continue
+                desc = None
+                if len(got) != len(roots):
+                    desc = 'returned %d roots for degree %d' % (len(got), len(roots))
+                else:
+                    tol = mpf(2) ** (-prec // 2)
+                    for g in got:
+                        if min(abs(g - r) for r in roots) > tol:
+                            desc = 'returned %s, not near any root' % g
+                    nreal = sum(1 for r in rs if not isinstance(r, tuple))
+                    head, tail = got[:nreal], got[nreal:]
+                    if desc is None and any(abs(mp.im(g)) > tol for g in head):
+                        desc = 'a complex root is listed among the first %d (real) positions: %s' % (nreal, [mp.nstr(g, 8) for g in got])
+                    if desc is None:
+                        for i in range(0, len(tail), 2):
+                            if abs(tail[i + 1] - mp.conj(tail[i])) > tol:
+                                desc = 'complex roots are not adjacent conjugate pairs: %s' % [mp.nstr(g, 8) for g in got]
+                                break
+                if desc:
+                    cls = 'polyroots'
+                    ims = sorted(abs(r[1]) for r in rs if isinstance(r, tuple))
+                    if any(abs(a - b) < 1e-9 for a, b in zip(ims, ims[1:])):
+                        cls = 'polyroots order with two pairs of equal |imaginary part|'
+                    fails.append({'fn': 'polyroots', 'roots': str(rs), 'prec': prec, 'observed': desc, 'class': cls})
+    finally:
+        mp.prec = 53
+    return n, n, fails, [{'roots': str(sets[4])}], ('%d real polynomials built from chosen real roots and conjugate pairs (pairs sharing a real part, '
+                                                   'pairs sharing |imaginary part|, purely imaginary pairs, mixtures) x precisions 53, 100: number of '
+                                                   'roots, closeness, real roots first, adjacent conjugate pairs' % len(sets))
+
+
+CHECKS['C29'] = c29
